@@ -19,7 +19,7 @@ func init() { Registry["C20"] = C20 }
 func C20(p *ir.Program, r *report.R) {
 	c := C{p, r}
 	r.Floor = 170
-	r.Explain = "Decided: (charge before execute) in Interpreter.Run the call of operation.execute is dominated by operation.valid, successful validateStack and enforceRestrictions, a nil gasCost error and contract.UseGas(cost) true, with the memory-size overflow tests on the memorySize path and memory resized before execution; Contract.UseGas subtracts only under Gas >= gas; (jump table registry) every operation literal of vm/evm has execute, gasCost, validateStack and valid:true, and every entry whose execute function touches memory (Set/Set32/Get/GetPtr/GetCopy, directly or through a same-package helper) declares memorySize; (frame atomicity) every EVM and WASM frame function that takes a state snapshot reverts to that same snapshot on every path on which the frame's error is non-nil, takes the snapshot before transferring value, transfers only after the depth and balance checks, and burns the remaining gas unless the error is the explicit revert; app.CallWasmContract reverts on both error paths; (determinism) no map iteration, clock-dependent value, randomness or goroutine in vm/evm execution code outside the tracer; (crash-free) the explicit panic sites of vm/evm reachable from Run equal the reviewed table. NOT decided: termination, gas totals, memory-offset arithmetic inside the gas/memory functions, the third-party tc-wasm engine."
+	r.Explain = "Decided: (charge before execute) in Interpreter.Run the call of operation.execute is dominated by operation.valid, successful validateStack and enforceRestrictions, a nil gasCost error and contract.UseGas(cost) true, with the memory-size overflow tests on the memorySize path and memory resized before execution; Contract.UseGas subtracts only under Gas >= gas; (jump table registry) every operation literal of vm/evm has execute, gasCost, validateStack and valid:true, and every entry whose execute function touches memory (Set/Set32/Get/GetPtr/GetCopy, directly or through a same-package helper) declares memorySize; (frame atomicity) every EVM and WASM frame function that takes a state snapshot reverts to that same snapshot on every path on which the frame's error is non-nil, takes the snapshot before transferring value, transfers only after the depth and balance checks, and burns the remaining gas unless the error is the explicit revert; app.CallWasmContract reverts on both error paths; (determinism) no map iteration, clock-dependent value, randomness or goroutine in vm/evm execution code outside the tracer; (crash-free) the explicit panic sites of vm/evm reachable from Run equal the reviewed table. ADDED after seeded-change testing: The revert-on-error rule is path-sensitive (the returned error value is followed backwards through phis and local stores; branch conditions on one SSA value are kept consistent); slices bounded by big.Int.Uint64() need BitLen <= 64 and <= len or a BigMin clamp; CREATE/CREATE2 hand the child exactly the amount charged with UseGas, the CALL family evm.callGasTemp (+ stipend). NOT decided: termination, gas totals, memory-offset arithmetic inside the gas/memory functions, the third-party tc-wasm engine."
 	r.Trusted = []string{"tc-wasm engine (third party)", "big.Int arithmetic"}
 
 	// ---- charge before execute ---------------------------------------------------------
@@ -209,14 +209,6 @@ func C20(p *ir.Program, r *report.R) {
 			// every return with a possibly non-nil error after the snapshot passes a revert
 			isRev := ir.CallMatcher("*StateDB.RevertToSnapshot")
 			errIdx := errorResultIndex(fn.Signature)
-			nilEdge := func(atoms []string) bool {
-				for _, a := range atoms {
-					if strings.HasPrefix(a, "eq(") && strings.HasSuffix(a, ",nil)") && (strings.Contains(a, "err") || strings.Contains(a, "run(") || strings.Contains(a, "Run(")) {
-						return true
-					}
-				}
-				return false
-			}
 			bad := ""
 			for _, rt := range ir.Returns(fn) {
 				if errIdx < 0 || !ir.Precedes(snap, rt.Instr) {
@@ -225,9 +217,11 @@ func C20(p *ir.Program, r *report.R) {
 				if ir.AbstractResult(rt.Results[errIdx]) == "nil" {
 					continue
 				}
-				found, _, tr := ir.FindPath(ir.PathQuery{From: ir.At(snap), Target: func(in ssa.Instruction) bool { return in == ssa.Instruction(rt.Instr) }, Avoid: isRev, AvoidEdge: nilEdge})
+				// path-sensitive: follow the returned error value backwards (phis by the edge taken,
+				// locals by the last store) and drop paths on which it is nil
+				found, tr := ir.NonNilPathWithout(snap.(ssa.Instruction), rt.Instr, rt.Results[errIdx], isRev)
 				if found {
-					bad = fmt.Sprintf("return at %s reachable with a non-nil error without revert via blocks %v", p.InstrPos(rt.Instr), tr)
+					bad = fmt.Sprintf("return at %s reachable with a possibly non-nil error without revert via blocks %v", p.InstrPos(rt.Instr), tr)
 				}
 			}
 			r.Check("K2", "frame/"+name+"/revert-on-every-error-path", p.InstrPos(snap), bad == "", "after the snapshot, every path that returns a possibly non-nil error passes RevertToSnapshot; "+bad)
@@ -252,6 +246,91 @@ func C20(p *ir.Program, r *report.R) {
 		cw := p.Func("app", "CallWasmContract")
 		rv := ir.Calls(cw, "*StateDB.RevertToSnapshot")
 		r.Check("K2", "app.CallWasmContract/reverts-on-errors", p.Pos(cw.Pos()), len(rv) >= 2, fmt.Sprintf("both error paths revert (found %d reverts)", len(rv)))
+	}
+
+	// ---- a child frame gets no more gas than the caller was charged ----------------------------------
+	// CREATE/CREATE2: the amount passed to the child is exactly the amount charged with UseGas just
+	// before (all but one 64th). CALL family: the amount is evm.callGasTemp (charged by the gas
+	// function as part of the call cost), plus the fixed stipend only when value is transferred.
+	{
+		for _, opn := range []string{"opCreate", "opCreate2"} {
+			fn := p.Func("vm/evm", opn)
+			var child ssa.CallInstruction
+			for _, call := range ir.Calls(fn, "evm.EVM.Create*") {
+				child = call
+			}
+			ug := ir.Calls(fn, "evm.Contract.UseGas")
+			if child == nil || len(ug) != 1 {
+				r.Undecided("K5", "child-gas/vm/evm."+opn, p.Pos(fn.Pos()), "Create call or single UseGas not found")
+				continue
+			}
+			charged := Arg(ug[0], 1)
+			given := Arg(child, 3)
+			r.Check("K5", "child-gas/vm/evm."+opn+"/given==charged", p.InstrPos(child.(ssa.Instruction)), given == charged && ir.Precedes(ug[0].(ssa.Instruction), child.(ssa.Instruction)),
+				"child gas "+given+" equals the amount charged with UseGas "+charged+", charged first (opCreate hands over everything, opCreate2 all but one 64th)")
+		}
+		for _, opn := range []string{"opCall", "opCallCode", "opDelegateCall", "opStaticCall"} {
+			fn := p.Func("vm/evm", opn)
+			for _, call := range ir.Calls(fn, "evm.EVM.*Call*") {
+				gi := 5
+				if opn == "opDelegateCall" || opn == "opStaticCall" {
+					gi = 4
+				}
+				// locate the gas argument by type/position: it is the only uint64 argument
+				given := ""
+				var gv ssa.Value
+				for i, a := range call.Common().Args {
+					if b, ok := a.Type().Underlying().(*types.Basic); ok && b.Kind() == types.Uint64 {
+						given, gv = ir.Render(a), a
+						_ = i
+					}
+				}
+				_ = gi
+				ok := given == "evm.callGasTemp"
+				if ph, isPhi := gv.(*ssa.Phi); isPhi {
+					ok = true
+					for _, e := range ph.Edges {
+						es := ir.Render(e)
+						if es != "evm.callGasTemp" && es != "(evm.callGasTemp + config.CallStipend)" && es != "(evm.callGasTemp + 2300)" {
+							ok = false
+						}
+					}
+				}
+				r.Check("K5", "child-gas/vm/evm."+opn+"/given==callGasTemp", p.InstrPos(call.(ssa.Instruction)), ok, "child gas is evm.callGasTemp (plus the stipend on value transfer): "+given)
+			}
+		}
+	}
+
+	// ---- slices bounded by 256-bit stack words ---------------------------------------------------
+	// A slice bound taken from a big.Int with Uint64() silently truncates: the word must be known
+	// to fit 64 bits and to be within the sliced buffer (or be clamped with BigMin to its length).
+	{
+		nSl := 0
+		for _, f := range p.Funcs {
+			if f.Pkg == nil || ir.RelPkg(f.Pkg.Pkg) != "vm/evm" || f.Blocks == nil || strings.HasSuffix(p.Pos(f.Pos()), "_test.go") {
+				continue
+			}
+			ir.Instrs(f, func(in ssa.Instruction) {
+				sl, ok := in.(*ssa.Slice)
+				if !ok || sl.High == nil {
+					return
+				}
+				hc, ok := sl.High.(*ssa.Call)
+				if !ok || ir.CalleeName(hc) != "big.Int.Uint64" {
+					return
+				}
+				nSl++
+				x := ir.Render(hc.Call.Args[0])
+				base := ir.Render(sl.X)
+				fs := ir.FactsAt(in)
+				fits := ir.HasFact(fs, "le(big.Int.BitLen("+x+"),64)") || ir.HasFact(fs, "big.Int.IsUint64("+x+")")
+				within := ir.HasFact(fs, "le(big.Int.Uint64("+x+"),len("+base+"))") || ir.HasFact(fs, "le(big.Int.Uint64("+x+"),uint64(len("+base+")))")
+				clamped := strings.HasPrefix(x, "math.BigMin(") && strings.HasSuffix(x, ",big.NewInt(len("+base+")))")
+				r.Check("K1", "evm/slice-bound/"+ir.FuncName(f), p.InstrPos(in), (fits && within) || clamped,
+					fmt.Sprintf("%s[..:%s.Uint64()] needs BitLen<=64 and <= len (fits %v, within %v) or a BigMin clamp to the length (%v)", short(base, 50), short(x, 80), fits, within, clamped))
+			})
+		}
+		r.Check("K1", "evm/slice-bound/sites", "-", nSl >= 2, fmt.Sprintf("%d slices bounded by big.Int.Uint64() found in vm/evm (confirmed by hand: 2)", nSl))
 	}
 
 	// ---- determinism / crash-free in vm/evm ---------------------------------------------------
